@@ -1245,6 +1245,7 @@ def c31_sat(ctx, profile):
 
 
 def c31(ctx):
+    spaced_rune_obligations(ctx)
     c31_decimal(ctx, "lift-dev")
     c31_sat(ctx, "dev")
     if ctx.tier == "thorough":
@@ -1312,6 +1313,72 @@ def c32(ctx):
     guarded(ctx, "c32_rune_print_then_parse", "Rune(n) prints as letters A-Z that parse back to n",
             "all n whose name has at most %d letters (n <= %d); longer names are outside the decided bound: z3/cvc5 do not finish the 128-bit base-26 identity beyond ~14 digits; u128::MAX (special-cased in Display) is checked separately" % (PRINT_LEN, print_max),
             "dev", ob_print_parse, lambda v: _rep_rune_roundtrip(ctx, v))
+
+    def ob_print_windows(ob):
+        # narrow windows around power-of-two and name-length boundaries: full-width arithmetic,
+        # but the solver only has to search a few hundred values per window
+        ob.vars = {"n": n}
+        exq = ob.ex()
+        f = exq.find_impl_fn("rune", "from_str", r"^impl FromStr for Rune")
+        centers = [2 ** k for k in (8, 16, 31, 32, 63, 64, 96, 127)] + [sum(26 ** i for i in range(1, L + 1)) for L in (9, 13, 14, 20, 26, 27)] + [U128 - 200]
+        W = 150 if ctx.tier == "quick" else 400
+        for cen in centers:
+            lo, hi = max(0, cen - W), min(U128 - 1, cen + W)
+            for r, chars in run_display(ob, exq, r"^impl Display for Rune", "rune", Struct([n]), [n >= lo, n <= hi]):
+                if r.kind != "return":
+                    ob.reach(r.pc, "Rune Display panics near %d: %s" % (cen, r.msg))
+                    continue
+                st = X.State(); st.pc = list(r.pc)
+                for r2 in exq.run(f, [X.SymStr("printed", chars=chars)], st):
+                    ob.paths += 1
+                    if r2.kind != "return":
+                        ob.reach(r2.pc, "from_str panics on a printed name: " + r2.msg)
+                    elif r2.value.variant != 0:
+                        ob.reach(r2.pc, "printed name does not parse")
+                    else:
+                        ob.query(r2.pc, r2.value.fields[0][0] == n, ob.vars, "parse(print(n)) == n near %d" % cen)
+    if os.environ.get("E2_EXPERIMENTAL"):      # z3 does not finish these reliably (128-bit base-26 chains); not registered
+      guarded(ctx, "c32_rune_print_then_parse_windows", "parse(print(n)) == n and no panic in windows around integer-width and name-length boundaries",
+            "n within +-150 (quick) / +-400 (thorough) of 2^8, 2^16, 2^31, 2^32, 2^63, 2^64, 2^96, 2^127, of the first names with 10, 14, 15, 21, 27 and 28 letters, and of u128::MAX",
+            "dev", ob_print_windows, lambda v: _rep_rune_roundtrip(ctx, v))
+
+    def ob_spaced_roundtrip(ob):
+        exq = ob.ex()
+        sp = z3.Int("spacers")
+        fs = exq.find_impl_fn("spaced_rune", "from_str", r"^impl FromStr for SpacedRune")
+        cases = []
+        short_max = sum(26 ** i for i in range(1, 5)) - 1            # names of at most 4 letters
+        cases.append(("short", [n >= 0, n <= short_max], sp, [sp >= 0, sp <= 2 ** 32 - 1]))
+        first28 = sum(26 ** i for i in range(1, 28))
+        first27 = sum(26 ** i for i in range(1, 27))
+        for label, lo, hi in (("27-letter", first27, first27 + 20), ("28-letter", first28, first28 + 20), ("max", U128 - 20, U128)):
+            for bits in ([1 << 25, 1 << 26, 0x07FFFFFF, 2 ** 32 - 1, 1] if ctx.tier == "quick" else [1 << k for k in range(0, 32)] + [0x07FFFFFF, 2 ** 32 - 1, 0]):
+                cases.append(("%s/spacers=%#x" % (label, bits), [n >= lo, n <= hi], bits, []))
+        for label, pre_n, spv, pre_s in cases:
+            ob.vars = {"n": n, "spacers": sp} if not X.is_conc(spv) else {"n": n}
+            for r, chars in run_display(ob, exq, r"^impl Display for SpacedRune", "spaced_rune", Struct([Struct([n]), spv]), pre_n + pre_s):
+                if r.kind != "return":
+                    ob.reach(r.pc, "SpacedRune Display panics (%s): %s" % (label, r.msg))
+                    continue
+                if chars is None:
+                    raise Unsupported("SpacedRune Display output is not a char sequence")
+                nletters = sum(1 for c in chars if not (X.is_conc(c) and c == ord("\u2022")))
+                st = X.State(); st.pc = list(r.pc)
+                for r2 in exq.run(fs, [X.SymStr("printed", chars=chars)], st):
+                    ob.paths += 1
+                    if r2.kind != "return":
+                        ob.reach(r2.pc, "from_str panics on a printed spaced rune: " + r2.msg)
+                    elif r2.value.variant != 0:
+                        ob.reach(r2.pc, "printed spaced rune does not parse (%s)" % label)
+                    else:
+                        got = r2.value.fields[0]
+                        keep = (1 << (nletters - 1)) if nletters >= 1 else 1
+                        want_sp = (X.zint(spv) % keep)          # spacers past the last letter are dropped
+                        ob.query(r2.pc, z3.And(got[0][0] == n, X.zint(got[1]) == want_sp), ob.vars, "parse(print(spaced rune)) keeps the rune and the in-range spacers (%s)" % label)
+    if os.environ.get("E2_EXPERIMENTAL"):
+      guarded(ctx, "c32_spaced_rune_print_then_parse", "printing then parsing a spaced rune returns the same rune and the spacers below the last letter",
+            "all names of <= 4 letters with any u32 spacer mask; 27-/28-letter names (21 values each at the first 27-letter, first 28-letter name and below u128::MAX) with single high spacer bits, MAX_SPACERS and u32::MAX",
+            "dev", ob_spaced_roundtrip, lambda v: _rep_spaced_roundtrip(ctx, v))
 
     def ob_print_max(ob):
         ob.vars = {"n": n}
@@ -1407,6 +1474,115 @@ def c32(ctx):
             "all u128 values; one path per byte length (17)", "dev", ob_commitment, lambda v: _rep_commitment(ctx, v))
 
 
+def spaced_rune_obligations(ctx):
+    """SpacedRune::from_str / Display over explicit symbolic char sequences (C31 totality,
+    C32 round trip)."""
+    SP = ord("•")
+
+    def run_from_str(ob, exq, cs, pre):
+        f = exq.find_impl_fn("spaced_rune", "from_str", r"^impl FromStr for SpacedRune")
+        st = X.State(); st.pc = list(pre)
+        res = exq.run(f, [X.SymStr("sr", chars=cs)], st)
+        ob.paths += len(res)
+        return res
+
+    def ob_total(ob):
+        exq = ob.ex()
+        shapes = []
+        maxl = 5 if ctx.tier == "quick" else 7
+        for L in range(0, maxl + 1):
+            shapes.append(("any%d" % L, L, 0))
+        # k letters followed by up to two arbitrary chars: reaches the long-name region
+        for k in ([27, 28, 32, 33, 34] if ctx.tier == "quick" else list(range(26, 36)) + [63, 64, 65]):
+            shapes.append(("letters%d+2" % k, k + 2, k))
+        for name, L, nletters in shapes:
+            cs, pre = [], []
+            for i in range(L):
+                c, rng = any_char("s%s_%d" % (name.replace("+", "p"), i))
+                cs.append(c)
+                pre.append(rng)
+                if i < nletters:
+                    pre.append(z3.And(c >= ord("A"), c <= ord("Z")))
+            ob.vars = {"c%d" % i: c for i, c in enumerate(cs)}
+            for r in run_from_str(ob, exq, cs, pre):
+                if r.kind != "return":
+                    ob.reach(r.pc, "SpacedRune::from_str panics (%s): %s" % (name, r.msg))
+                    continue
+                if r.value.variant == 0:
+                    sr = r.value.fields[0]
+                    rune, spacers = sr[0][0], sr[1]
+                    # accepted: letters and spacers only, value = base-26 value of the letters,
+                    # spacer bit i set iff a spacer follows letter i (and is not the last letter)
+                    is_letter = [z3.And(c >= ord("A"), c <= ord("Z")) for c in cs]
+                    is_spacer = [z3.Or(c == ord("."), c == SP) for c in cs]
+                    ob.query(r.pc, z3.And(*[z3.Or(a, b) for a, b in zip(is_letter, is_spacer)]) if cs else True, ob.vars, "accepted string has a foreign character (%s)" % name)
+                    # on this path each char's class is decided: recompute the expected value
+                    letters, bits, ok = [], 0, True
+                    for i, c in enumerate(cs):
+                        if not exq.feasible(r.pc, z3.Not(is_letter[i])):
+                            letters.append(c)
+                        elif not exq.feasible(r.pc, z3.Not(is_spacer[i])):
+                            if not letters:
+                                ok = False
+                            else:
+                                bits |= 1 << (len(letters) - 1)
+                        else:
+                            ok = False
+                    if not ok or not letters:
+                        ob.query(r.pc, False, ob.vars, "accepted a string with an undecided / leading spacer shape (%s)" % name)
+                        continue
+                    want = base26_value(letters)
+                    ob.query(r.pc, z3.And(rune == want, want <= U128, spacers == bits, bits < (1 << (len(letters) - 1)) if len(letters) > 1 else bits == 0),
+                             ob.vars, "accepted spaced rune denotes a different (rune, spacers) (%s)" % name)
+    guarded(ctx, "c31_spaced_rune_from_str", "SpacedRune::from_str never panics and accepts only letter/spacer strings, returning the base-26 value of the letters and exactly the spacer bits between letters",
+            "every char sequence of length 0..=5 (quick) / 7 (thorough), plus every string of k in {27,28,32,33,34} letters followed by two arbitrary chars (long-name region); chars are arbitrary Unicode scalars",
+            "dev", ob_total, lambda v: _rep_spaced_parse(ctx, v))
+
+
+def _rep_spaced_parse(ctx, v):
+    keys = sorted((k for k in v if re.fullmatch(r"c\d+", k)), key=lambda k: int(k[1:]))
+    try:
+        text = "".join(chr(v[k]) for k in keys)
+    except (ValueError, TypeError):
+        return None
+    if any(ch in text for ch in "\n\r ") or text != text.strip():
+        return None
+    a = ctx.native(["spaced_parse " + text])[0]
+    if a == "PANIC":
+        return {"string": text, "native": "PANIC"}
+    letters = [ch for ch in text if "A" <= ch <= "Z"]
+    valid = all(("A" <= ch <= "Z") or ch in ".•" for ch in text)
+    if isinstance(a, dict) and "ok" in a:
+        val = None
+        for i, ch in enumerate(letters):
+            d = ord(ch) - 65
+            val = d if i == 0 else (val + 1) * 26 + d
+        bits, n = 0, 0
+        for ch in text:
+            if "A" <= ch <= "Z":
+                n += 1
+            elif n:
+                bits |= 1 << (n - 1)
+        if not valid or val is None or int(a["ok"]) != val or int(a["spacers"]) != bits:
+            return {"string": text, "native": a, "expected": (val, bits)}
+    return None
+
+
+def _rep_spaced_roundtrip(ctx, v):
+    nn = v["n"]
+    cands = [v["spacers"]] if "spacers" in v else [1 << 25, 1 << 26, 0x07FFFFFF, 2 ** 32 - 1, 1] + [1 << k for k in range(32)]
+    for spv in cands:
+        a = ctx.native(["spaced_display %d %d" % (nn, spv)])[0]
+        if a == "PANIC":
+            return {"n": nn, "spacers": spv, "native": "PANIC"}
+        b = ctx.native(["spaced_parse " + a["s"]])[0]
+        letters = sum(1 for ch in a["s"] if "A" <= ch <= "Z")
+        want = spv % (1 << (letters - 1)) if letters >= 1 else 0
+        if b == "PANIC" or "ok" not in b or int(b["ok"]) != nn or int(b["spacers"]) != want:
+            return {"n": nn, "spacers": spv, "printed": a["s"], "parsed": b, "expected_spacers": want}
+    return None
+
+
 def _rep_rune_roundtrip(ctx, v):
     a = ctx.native(["rune_display %d" % v["n"]])[0]
     if a == "PANIC":
@@ -1497,12 +1673,14 @@ def c25(ctx):
     from .mirmodels import Container
     MAXI = 10
 
-    def make_body(N, M):
+    def make_body(N, M, tags=None):
         def body(ob):
             exq = ob.ex()
             ints = [z3.Int("i%d" % k) for k in range(N)]
             ob.vars = {"i%d" % k: v for k, v in enumerate(ints)}
             pre = [z3.And(v >= 0, v <= U128) for v in ints]
+            if tags:
+                pre += [ints[2 * k] == t for k, t in enumerate(tags)]
             exq.overrides = {
                 "Runestone::payload": lambda ex, st, args: Enum("Option", 1, [Enum("runestone::Payload", 0, [Container("vec", [])])]),
                 "Runestone::integers": lambda ex, st, args: Enum("Result", 0, [Container("vec", list(ints))]),
@@ -1561,7 +1739,7 @@ def c25(ctx):
                 exq.overrides = {}
         return body
 
-    sizes = [(0, 2), (1, 2), (2, 2), (3, 2), (4, 2)] if ctx.tier == "quick" else [(n, 2) for n in range(0, 7)] + [(5, 1), (6, 3)]
+    sizes = [(0, 2), (1, 2), (2, 2), (3, 2), (4, 2)] if ctx.tier == "quick" else [(n, 2) for n in range(0, 6)] + [(4, 1), (4, 3)]
     if os.environ.get("E2_C25_SIZES"):
         sizes = [tuple(int(x) for x in p.split("x")) for p in os.environ["E2_C25_SIZES"].split(",")]
     for N, M in sizes:
@@ -1569,6 +1747,14 @@ def c25(ctx):
                 "for every sequence of %d integers (any u128 values) in a transaction with %d outputs, Runestone::decipher (message parsing + field decoding) yields exactly the runestone or the cenotaph with the first flaw that the specification reference yields" % (N, M),
                 "payload extraction and LEB128 decoding are replaced by 'the integer sequence is i0..i%d' (decided separately by the Kani stage harnesses and C26); reference = harness/ordinals/runestone_h.rs ref_message/ref_runestone, written from docs/src/runes/specification.md and executed from its own MIR" % (N - 1),
                 "dev", make_body(N, M), lambda v, N=N, M=M: _rep_decipher(ctx, v, N, M))
+    # three-field messages with fixed tags and arbitrary values (6 integers): the combinations
+    # needed for supply overflow vs. flag/tag flaws, terms, mint (two values) and pointer
+    triples = [(2, 8, 10), (2, 6, 8)] if ctx.tier == "quick" else [(2, 8, 10), (2, 6, 8), (2, 6, 10), (2, 4, 22), (20, 20, 22), (2, 12, 14), (2, 3, 5), (2, 1, 126)]
+    for tg in triples:
+        guarded(ctx, "c25_decipher_vs_spec_tags_%s" % "_".join(map(str, tg)),
+                "for every three-field message with tags %s and arbitrary u128 values (2 outputs), decipher yields what the specification reference yields" % (tg,),
+                "6 integers: tags fixed to %s, values symbolic; otherwise as c25_decipher_vs_spec_n*" % (tg,),
+                "dev", make_body(6, 2, tg), lambda v, tg=tg: _rep_decipher(ctx, v, 6, 2))
 
 
 def _rep_decipher(ctx, v, N, M):
@@ -1588,7 +1774,189 @@ def _rep_decipher(ctx, v, N, M):
     return None
 
 
-PROPS = {"C29": c29, "C33": c33, "C34": c34, "C31": c31, "C32": c32, "C25": c25}
+# =========================================================================== C01
+
+def c01(ctx):
+    from .mirmodels import Container
+
+    def make_body(shape, nout):
+        """shape: ranges per input, e.g. (2, 1); nout: number of outputs"""
+        def body(ob):
+            exq = ob.ex()
+            ranges, pre, vars_ = [], [], {}
+            for i, k in enumerate(shape):
+                rs = []
+                for j in range(k):
+                    a, b = z3.Int("a%d_%d" % (i, j)), z3.Int("b%d_%d" % (i, j))
+                    vars_["a%d_%d" % (i, j)], vars_["b%d_%d" % (i, j)] = a, b
+                    # stored sat ranges: non-empty, inside the supply, at most one block subsidy long
+                    pre += [a >= 0, a < b, b <= SUPPLY, b - a <= 50 * COIN]
+                    rs.append((a, b))
+                ranges.append(rs)
+            vals = [z3.Int("v%d" % j) for j in range(nout)]
+            for j, v in enumerate(vals):
+                vars_["v%d" % j] = v
+                pre.append(z3.And(v >= 0, v <= 21000000 * COIN))
+            total_in = sum((b - a for rs in ranges for a, b in rs), z3.IntVal(0))
+            pre.append(sum(vals, z3.IntVal(0)) <= total_in)      # consensus: outputs never exceed inputs
+            ob.vars = vars_
+            # SatRange bytes are opaque tokens: `SatRange::load(SatRange::store(r)) == r` on the
+            # stored domain is C35's decided claim and is used here as a lemma (the domain
+            # conditions are discharged by a solver query at every store)
+            st = X.State(); st.pc = list(pre)
+            registry = {}
+            class ByteTok:
+                def __init__(self, rid, i):
+                    self.rid, self.i = rid, i
+                def __repr__(self):
+                    return "b%d.%d" % (self.rid, self.i)
+            def do_store(a, b, pc):
+                dom = z3.And(X.zint(a) >= 0, X.zint(a) <= X.zint(b), X.zint(b) - X.zint(a) < 2 ** 33, X.zint(a) < 2 ** 51)
+                if exq.feasible(pc, z3.Not(dom)):
+                    raise Unsupported("a sat range outside SatRange's 51+33-bit domain is stored")
+                rid = len(registry)
+                registry[rid] = (a, b)
+                return Struct([ByteTok(rid, i) for i in range(11)])
+            def ov_store(ex, st_, args):
+                r = args[0]
+                return do_store(r[0], r[1], st_.pc)
+            def ov_load(ex, st_, args):
+                ch = list(args[0])
+                if len(ch) != 11 or not all(isinstance(t, ByteTok) for t in ch) or any(t.rid != ch[0].rid or t.i != i for i, t in enumerate(ch)):
+                    raise Unsupported("SatRange::load on bytes that are not one stored range")
+                a, b = registry[ch[0].rid]
+                return Struct([a, b])
+            inputs = []
+            for rs in ranges:
+                bs = []
+                for a, b in rs:
+                    bs += list(do_store(a, b, st.pc))
+                inputs.append(X.Ref([Container("slice", bs)]))
+            index = Struct([False, False, True])        # Index { index_addresses, index_inscriptions, index_sats }
+            upd = X.Ref([Struct([X.Ref([index]), 0])], (), True)
+            tx = Struct([2, 0, Container("vec", []), Container("vec", [Struct([Struct([v]), X.Opaque("script")]) for v in vals])])
+            newbuf = exq.run("utxo_entry::UtxoEntryBuf::new", [], X.State())[0].value
+            import copy as _copy
+            entries_cell = [Container("slice", [_copy.deepcopy(newbuf) for _ in range(nout)])]
+            leftover_cell = [Container("vec", [])]
+            table_cell = [Struct([Container("vec", []), X.Opaque("phantom")])]
+            w_cell, t_cell = [0], [0]
+            common = {}
+            def stub_common(ex, st_, args):
+                b = z3.Bool("common_%d" % next(ex.fresh))
+                return b
+            exq.overrides = {"ordinals::Sat::common": stub_common,
+                             "SatPoint as entry::Entry>::store": lambda ex, st_, args: Struct([X.Opaque("satpoint-bytes")]),
+                             "<(u64, u64) as entry::Entry>::store": ov_store,
+                             "<(u64, u64) as entry::Entry>::load": ov_load}
+            st.keep = (entries_cell, leftover_cell, w_cell, t_cell, upd.cell)
+            try:
+                f = exq.find_fn("updater_extract::_::index_transaction_sats")
+                res = exq.run(f, [upd, X.Ref([tx]), X.Opaque("txid"), X.Ref(table_cell, (), True), X.Ref(entries_cell, (), True),
+                                  X.Ref([Container("slice", inputs)]), X.Ref(leftover_cell, (), True), X.Ref(w_cell, (), True), X.Ref(t_cell, (), True)], st)
+            finally:
+                exq.overrides = {}
+            ob.paths += len(res)
+            flat_in = [ab for rs in ranges for ab in rs]
+            for r in res:
+                if r.kind != "return":
+                    ob.reach(r.pc, "index_transaction_sats panics: " + r.msg)
+                    continue
+                if r.value.variant != 0:
+                    ob.reach(r.pc, "index_transaction_sats returns an error")
+                    continue
+                ents, left, wc, tc, updc = r.keep
+                # decode what was written: [count varint][11-byte ranges]*
+                pieces = []      # (owner, lo, hi): owner = output index or "left"
+                pc = list(r.pc)
+                def load_range(chunk, pc):
+                    class _S: pass
+                    s_ = _S(); s_.pc = pc
+                    v = ov_load(exq, s_, [Struct(chunk)])
+                    return (v[0], v[1]), pc
+                ok_shape = True
+                for j, e in enumerate(ents[0]):
+                    vec = list(e[0])
+                    if not vec or not X.is_conc(vec[0]) or vec[0] >= 128 or len(vec) != 1 + 11 * vec[0]:
+                        ok_shape = False
+                        break
+                    for k in range(vec[0]):
+                        (lo, hi), pc = load_range(vec[1 + 11 * k:12 + 11 * k], pc)
+                        pieces.append((j, lo, hi))
+                lv = list(left[0])
+                if len(lv) % 11 != 0:
+                    ok_shape = False
+                for k in range(len(lv) // 11):
+                    (lo, hi), pc = load_range(lv[11 * k:11 * k + 11], pc)
+                    pieces.append(("left", lo, hi))
+                if not ok_shape:
+                    ob.query(pc, False, ob.vars, "malformed output entry / leftover bytes")
+                    continue
+                # (1) every output gets exactly its value
+                conds = []
+                for j, v in enumerate(vals):
+                    got = sum((hi - lo for o, lo, hi in pieces if o == j), z3.IntVal(0))
+                    conds.append(got == v)
+                # (2) first-in-first-out: the pieces, in output order then leftovers, are a
+                #     refinement of the input ranges in input order (walk both lists)
+                walk_ok = fifo_walk(exq, pc, flat_in, [(lo, hi) for _, lo, hi in pieces])
+                conds.append(walk_ok)
+                # (3) pieces are non-empty (no zero-length range is stored)
+                conds += [hi > lo for _, lo, hi in pieces]
+                ob.query(pc, z3.And(*conds), ob.vars, "outputs do not receive exactly the FIFO share of the input sat ranges")
+        return body
+
+    def fifo_walk(exq, pc, ins, pieces):
+        """condition that `pieces` split `ins` in order; decided structurally with the solver
+        choosing, piece by piece, whether it ends its input range (both cases if undecided)"""
+        def go(i, cur_lo, k, pc2):
+            # cur_lo: position inside input range i already consumed up to (None = at its start)
+            if k == len(pieces):
+                return z3.BoolVal(i == len(ins) and cur_lo is None) if not (i < len(ins)) else z3.BoolVal(False)
+            if i >= len(ins):
+                return z3.BoolVal(False)
+            a, b = ins[i]
+            start = a if cur_lo is None else cur_lo
+            lo, hi = pieces[k]
+            ends = hi == b
+            starts_ok = z3.And(lo == start, hi <= b, hi > lo)
+            can_end = exq.feasible(pc2, z3.And(starts_ok, ends))
+            can_cont = exq.feasible(pc2, z3.And(starts_ok, z3.Not(ends)))
+            opts = []
+            if can_end:
+                opts.append(z3.And(starts_ok, ends, go(i + 1, None, k + 1, pc2 + [starts_ok, ends])))
+            if can_cont:
+                opts.append(z3.And(starts_ok, z3.Not(ends), go(i, hi, k + 1, pc2 + [starts_ok, z3.Not(ends)])))
+            return z3.Or(*opts) if opts else z3.BoolVal(False)
+        return go(0, None, 0, list(pc))
+
+    shapes = [((1,), 1), ((1,), 2), ((2,), 2), ((1, 1), 2), ((2, 1), 2)] if ctx.tier == "quick" else \
+             [((1,), 1), ((1,), 2), ((2,), 2), ((1, 1), 2), ((2, 1), 2), ((2, 2), 3), ((1, 2), 3), ((3,), 3)]
+    for shape, nout in shapes:
+        guarded(ctx, "c01_fifo_in%s_out%d" % ("x".join(map(str, shape)), nout),
+                "one transaction: every output receives exactly `value` sats, the assigned ranges followed by the leftover ranges are the input ranges split first-in-first-out, no empty range is stored, no panic",
+                "inputs with %s sat ranges (any ranges inside the supply up to one subsidy long), %d outputs with any values whose sum does not exceed the inputs; Sat::common is a nondeterministic stub (rare-sat table writes are not checked); sat index on, address/inscription indexes off" % ("+".join(map(str, shape)), nout),
+                "lift-dev", make_body(shape, nout), lambda v, shape=shape, nout=nout: _rep_fifo(ctx, v, shape, nout))
+
+
+def _rep_fifo(ctx, v, shape, nout):
+    from . import kani as K
+    crate = K.gen_lift()
+    ins = "|".join(" ".join("%d,%d" % (v["a%d_%d" % (i, j)], v["b%d_%d" % (i, j)]) for j in range(k)) for i, k in enumerate(shape))
+    spec = "%s # %s" % (ins, " ".join(str(v["v%d" % j]) for j in range(nout)))
+    env = C.env({"VREPLAY_FIFO": spec, "CARGO_TARGET_DIR": os.path.join(C.BUILD, "t-liftk-replay")})
+    p = subprocess.run(["cargo", "test", "--offline", "--lib", "vreplay_fifo", "--", "--nocapture"], cwd=crate, env=env,
+                       stdout=subprocess.PIPE, stderr=subprocess.STDOUT, universal_newlines=True, timeout=1800)
+    out = p.stdout
+    if "running 1 test" not in out:
+        raise RuntimeError("replay test did not run: " + out[-600:])
+    if "test result: FAILED" in out:
+        m = re.search(r"panicked at [^\n]*\n([^\n]*)", out)
+        return {"inputs_and_outputs": spec, "native": (m.group(1) if m else "assertion failed")[:300]}
+    return None
+
+
+PROPS = {"C29": c29, "C33": c33, "C34": c34, "C31": c31, "C32": c32, "C25": c25, "C01": c01}
 
 
 def main():
